@@ -22,6 +22,9 @@ ForAll(recv) == {
     M(recv, "vf_arg", R("arg"), TRUE) }
 MCMethods ==
     ForAll("Array") \cup ForAll("Hash") \cup ForAll("String") \cup ForAll("Integer")
+    \cup { M("Array", "vf_unify_nil", R("unify_nil"), FALSE), M("Array", "vf_self_int", R("self_int"), FALSE),
+           M("Array", "vf_unify_str", R("unify_str"), FALSE),
+           M("Hash", "vf_unify_nil", R("unify_nil"), FALSE), M("Hash", "vf_unify_str", R("unify_str"), FALSE) }
     \cup { M("Array", "vf_unify", R("unify"), FALSE), M("Array", "vf_ounify", R("ounify"), FALSE),
            M("Array", "vf_selfarr", R("selfarr"), FALSE),
            M("Hash", "vf_unify", R("unify"), FALSE), M("Hash", "vf_kva", R("kva"), FALSE) }
